@@ -2242,11 +2242,15 @@ def _first_positions(ctx, R, W, want_outside=True):
 
 
 WRITES = ('setitem_stored', 'setitem_new', 'setitem_slice', 'iscale_prefactor', 'iscale_axis', 'itranspose', 'iswapaxes', 'iconj',
-          'labels', 'iproject', 'iadd')
+          'labels', 'isort', 'iproject', 'iadd')
 
 
-NONFORKING_WRITES = ('setitem_stored', 'iscale_prefactor', 'iscale_axis', 'itranspose', 'iswapaxes', 'iconj', 'labels', 'iadd')
-FORKING_WRITES = ('setitem_new', 'setitem_slice', 'iproject')  # these branch on the (symbolic) charges
+NONFORKING_WRITES = ('setitem_stored', 'iscale_prefactor', 'iscale_axis', 'itranspose', 'iswapaxes', 'iconj', 'labels', 'isort', 'iadd')
+FORKING_WRITES = ('iproject', 'setitem_new', 'setitem_slice')  # these branch on the (symbolic) charges
+# writes that change only the *structure* of the tensor they are called on (block bookkeeping, legs, labels, new blocks) and
+# never write into an existing block: they must not affect any other tensor, not even one sharing blocks with it
+# (documented shallow copies: copy(deep=False), unary_blockwise, -a, replace_label, gauge_total_charge ...)
+STRUCTURAL_WRITES = ('itranspose', 'iswapaxes', 'iconj', 'labels', 'isort', 'iproject', 'setitem_new')
 
 
 def write_through(ctx, W, R, tag, check, writes=WRITES, groups=4):
@@ -2254,8 +2258,8 @@ def write_through(ctx, W, R, tag, check, writes=WRITES, groups=4):
     A symbolic selector picks either the sequence of writes that do not branch on charges or one of the branching
     writes, so that their forks add up instead of multiplying (groups: how many of the alternatives are explored)."""
     k = ctx.choice(W.ns + 'write', min(groups, 1 + len(FORKING_WRITES)))
-    writes = [w for w in writes if w in NONFORKING_WRITES] if k == 0 else [FORKING_WRITES[k - 1]]
-    inside, outside = (_first_positions(ctx, R, W, want_outside=(k == 1)) if k in (0, 1) else (None, None))
+    writes = [w for w in writes if w in NONFORKING_WRITES] if k == 0 else [w for w in [FORKING_WRITES[k - 1]] if w in writes]
+    inside, outside = (_first_positions(ctx, R, W, want_outside=('setitem_new' in writes)) if (k == 0 or 'setitem_new' in writes) else (None, None))
     r = R.rank
 
     def idx(p):
@@ -2288,9 +2292,16 @@ def write_through(ctx, W, R, tag, check, writes=WRITES, groups=4):
             elif w == 'labels':
                 R.iset_leg_labels([f'w{k}' for k in range(r)])
                 R.ireplace_label('w0', 'ww')
+            elif w == 'isort':
+                R.isort_qdata()
             elif w == 'iproject' and R.shape[0] > 1:
                 m = np.ones(R.shape[0], dtype=bool)
-                m[-1] = False
+                l0 = R.legs[0]
+                nz = [b for b in range(l0.block_number) if int(l0.slices[b + 1] - l0.slices[b]) > 0]
+                if len(nz) > 1:  # remove a complete charge block (not the last one: the block indices get renumbered)
+                    m[int(l0.slices[nz[0]]):int(l0.slices[nz[0] + 1])] = False
+                else:
+                    m[-1] = False
                 R.iproject(m, 0)
             elif w == 'iadd':
                 R += R.copy(deep=True)
